@@ -116,7 +116,7 @@ Definition case_whist (l : list Z) : list Z :=
                 | Some ss => let '(r, w) := run_write_shapes hs w0 ss in
                              1 :: r_unit_res r ++ r_world w
                 end
-              else if 3 <=? ending then
+              else if (3 <=? ending) && negb (ending =? 100) then
                 (* the last (ending - 3) calls, all writes, are handed together to `write_shapes` *)
                 let k := (length cs - Z.to_nat (ending - 3))%nat in
                 match shapes_of_calls (skipn k cs) with
@@ -125,6 +125,7 @@ Definition case_whist (l : list Z) : list Z :=
                                zlen rs :: flat_map r_unit_res rs ++ r_world w
                 end
               else
+                (* ending 100: the caller panics while the writer is alive; the writer is dropped by the unwinding: a drop *)
                 let '(rs, w) := run_history hs w0 cs (if ending =? 1 then EFinalizeDrop else EDrop) in
                 zlen rs :: flat_map r_unit_res rs ++ r_world w
           end
@@ -329,17 +330,30 @@ Definition p_pcall : parser (rowk * ctor) :=
   k <- p_next ;; c <- p_ctor ;;
   if k =? 0 then p_ret (RowOk, c) else if k =? 1 then p_ret (RowMissingField, c) else if k =? 2 then p_ret (RowWrongType, c) else p_fail.
 
-(* kind 3: the shape is written through the bare ShapeWriter BEFORE it is wrapped into the complete writer
-   (`Writer::new(shape_writer, table_writer)` accepts a writer that was already used); only as a prefix *)
-Definition p_pcall_b : parser (bool * (rowk * ctor)) :=
+(* mode 1 (wire kinds 3, 4): the call goes to the bare ShapeWriter BEFORE it is wrapped into the complete writer
+   (`Writer::new(shape_writer, table_writer)` accepts a writer that was already used) - kind 3 a write, kind 4 (with the
+   null constructor) a finalize; only as a prefix.  mode 2 (wire kind 5): the pair belongs to the collection handed to
+   the bulk helper `write_shapes_and_records` at the end; only as a suffix. *)
+Definition p_pcall_b : parser (Z * (rowk * ctor)) :=
   k <- p_next ;; c <- p_ctor ;;
-  if k =? 0 then p_ret (false, (RowOk, c)) else if k =? 1 then p_ret (false, (RowMissingField, c))
-  else if k =? 2 then p_ret (false, (RowWrongType, c)) else if k =? 3 then p_ret (true, (RowOk, c)) else p_fail.
+  if k =? 0 then p_ret (0, (RowOk, c)) else if k =? 1 then p_ret (0, (RowMissingField, c))
+  else if k =? 2 then p_ret (0, (RowWrongType, c)) else if k =? 3 then p_ret (1, (RowOk, c))
+  else if k =? 4 then (match c with CNull => p_ret (1, (RowOk, c)) | _ => p_fail end)
+  else if k =? 5 then p_ret (2, (RowOk, c)) else p_fail.
 
-Fixpoint bare_prefix (l : list (bool * (rowk * ctor))) : list ctor * list (rowk * ctor) :=
+Fixpoint split_mode {A} (m : Z) (l : list (Z * A)) : list A * list (Z * A) :=
   match l with
-  | (true, (_, c)) :: r => let '(a, b) := bare_prefix r in (c :: a, b)
-  | _ => ([], map snd l)
+  | (k, x) :: r => if k =? m then let '(a, b) := split_mode m r in (x :: a, b) else ([], l)
+  | [] => ([], [])
+  end.
+
+(** `write_shapes_and_records(self, pairs)`: pair by pair, stopping at the first error. *)
+Fixpoint cw_bulk (cs : list (shape * rowk * Z)) (st : cwstate) (w : world) : res unit * cwstate * world :=
+  match cs with
+  | [] => (Ok tt, st, w)
+  | (s, k, id) :: r =>
+      let '(res, st', w') := cw_write st w s k id in
+      match res with Ok _ => cw_bulk r st' w' | _ => (res, st', w') end
   end.
 
 Fixpoint number_calls (i : Z) (l : list (rowk * ctor)) : option (list (shape * rowk * Z)) :=
@@ -390,17 +404,27 @@ Definition r_cout_for (bulk : bool) (o : cout) : list Z :=
 Definition case_pair (l : list Z) : list Z :=
   match p_list p_pcall_b l with
   | Some (pcs0, rest) =>
-      let '(pre, pcs) := bare_prefix pcs0 in
-      if existsb fst (skipn (length pre) pcs0) then [-1] else
-      match build_all pre, number_calls (zlen pre) pcs, p_list p_cop rest with
-      | Some pre_shapes, Some calls, Some (ops, []) =>
-          let '(rs0, st0, w0) := run_calls (map CWrite pre_shapes) (w_new true) world0 in
-          let '(rs1, st, w) := cw_calls calls (mkcw st0 []) w0 in
-          let rs := rs0 ++ rs1 in
+      let '(pre0, rest1) := split_mode 1 pcs0 in
+      let pre := map snd pre0 in
+      let '(pcs, rest2) := split_mode 0 rest1 in
+      let '(bulk, rest3) := split_mode 2 rest2 in
+      match rest3 with _ :: _ => [-1] | [] =>
+      (* in the prefix the null constructor stands for `finalize` of the bare ShapeWriter *)
+      match build_calls (map (fun c => match c with CNull => PFinalize | _ => PWrite c end) pre), number_calls (zlen pre) (pcs ++ bulk), p_list p_cop rest with
+      | Some pre_calls, Some calls_all, Some (ops, []) =>
+          let calls := firstn (length pcs) calls_all in
+          let bulk_calls := skipn (length pcs) calls_all in
+          let '(rs0, st0, w0) := run_calls pre_calls (w_new true) world0 in
+          let '(rs1, st1, w1) := cw_calls calls (mkcw st0 []) w0 in
+          let '(rb, st, w) := cw_bulk bulk_calls st1 w1 in
+          let rs := rs0 ++ rs1 ++ (match bulk with [] => [] | _ => [rb] end) in
+          let bulk_written := (zlen (d_buf (w_shx w)) - zlen (d_buf (w_shx w1))) / 8 in
           let w' := w_drop (cw_shape st) w in
           let shp := d_buf (w_shp w') in let shx := d_buf (w_shx w') in
           let rows := cw_rows st in
-          let counts := [written_count rs; (zlen shx - 100) / 8; zlen rows] in
+          (* shapes written: the successful (or row-refused) pair calls and the successful bare writes of the prefix *)
+          let pre_writes := map snd (filter (fun p => match fst p with CWrite _ => true | _ => false end) (combine pre_calls rs0)) in
+          let counts := [written_count (pre_writes ++ rs1) + bulk_written; (zlen shx - 100) / 8; zlen rows] in
           zlen rs :: flat_map r_unit_res rs ++ counts ++
           match fst (run read_index_file (src_of shx)) with
           | Err e => 1 :: err_codes e
@@ -413,6 +437,7 @@ Definition case_pair (l : list Z) : list Z :=
           end
       | None, _, _ | _, None, _ => [-3]
       | _, _, _ => [-1]
+      end
       end
   | None => [-1]
   end.
@@ -579,6 +604,18 @@ Definition read_part (shp : bytes) (shxo : option bytes) (ops : list rop) : list
       r_final (fun x => x) (fst (run p (src_of shp)))
   end.
 
+Definition pair_part_as (req : option shape_type) (shp : bytes) (shxo : option bytes) (rows : list Z) (ops : list (bool * (nat -> ccall))) : list Z :=
+  let cap := (length shp / 12 + length (match shxo with Some b => b | None => [] end) / 8 + 2)%nat in
+  match index_of shxo with
+  | Err e => 1 :: err_codes e
+  | Panic => [2]
+  | Ok index =>
+      let open := match shxo with Some _ => r_with_shx index | None => r_new end in
+      let p := st0 <-- open ;; out <-- c_calls req rows (mkcr st0 0) (map (fun f => snd f cap) ops) ;;
+               Ret (flat_map (fun x => r_cout_for (fst (fst x)) (snd x)) (combine ops out)) in
+      r_res (fun x => x) (fst (run p (src_of shp)))
+  end.
+
 Definition pair_part (shp : bytes) (shxo : option bytes) (rows : list Z) (ops : list (bool * (nat -> ccall))) : list Z :=
   let cap := (length shp / 12 + length (match shxo with Some b => b | None => [] end) / 8 + 2)%nat in
   match index_of shxo with
@@ -660,24 +697,28 @@ Definition case_path (l : list Z) : list Z :=
   end.
 
 (** ** The complete reader on given files (kind 17)
-    [17; shp bytes; has_shx; shx bytes (if has_shx); nrows; nops; ops as in kind 9]: a table of nrows rows with ids
+    [17; req (-1 | type code); shp bytes; has_shx; shx bytes (if has_shx); nrows; nops; ops as in kind 9]: a table of nrows rows with ids
     0..nrows-1 beside the given .shp (and .shx). *)
 Definition K_PAIR_FILE : Z := 17.
-Definition case_pair_file (l : list Z) : list Z :=
-  match p_bytes l with
-  | Some (shp, has_shx :: rest) =>
+Definition case_pair_file (l0 : list Z) : list Z :=
+  match l0 with
+  | [] => [-1]
+  | reqc :: l =>
+  match decode_req reqc, p_bytes l with
+  | Some req, Some (shp, has_shx :: rest) =>
       let after_shx := if has_shx =? 1 then p_bytes rest else Some ([], rest) in
       match after_shx with
       | Some (shx, nrows :: rest2) =>
           match p_list p_cop rest2 with
           | Some (ops, []) =>
               if nrows <? 0 then [-1] else
-              pair_part shp (if has_shx =? 1 then Some shx else None) (map Z.of_nat (seq 0 (Z.to_nat nrows))) ops
+              pair_part_as req shp (if has_shx =? 1 then Some shx else None) (map Z.of_nat (seq 0 (Z.to_nat nrows))) ops
           | _ => [-1]
           end
       | _ => [-1]
       end
-  | _ => [-1]
+  | _, _ => [-1]
+  end
   end.
 
 Definition run_case2 (l : list Z) : list Z :=
